@@ -221,6 +221,7 @@ public:
 			case 'b': rs.setbuf((int)o.a); break;
 			case 'm': rs.io_mode((cppcms::http::response::io_mode_type)o.a); break;
 			case 'a': rs.full_asynchronous_buffering(o.a != 0); break;
+			case 'X': throw std::runtime_error("handler failed (scripted)");      // the handler throws: the framework answers in its place
 			case 'h': rs.set_header(o.s1, o.s2); break;
 			case 'c': rs.set_cookie(cppcms::http::cookie(o.s1, o.s2)); break;
 			case 't': rs.content_type(o.s1); break;
